@@ -8,8 +8,11 @@ def build_and_run(src, workdir, repo, args, timeout=600):
     exe = os.path.join(workdir, os.path.basename(src).replace(".cpp", ""))
     inc = ["-I%s/_build/include" % repo, "-I%s/include" % repo, "-I%s/_build" % repo, "-I%s" % repo,
            "-I%s/src/smpi/include" % repo, "-I/usr/include/eigen3"]
+    libdir = "%s/_build/lib" % (repo if os.path.isdir(os.path.join(repo, "_build", "lib")) else "/repo")
+    if not os.path.isdir(os.path.join(repo, "_build")):
+        inc += ["-I/repo/_build/include", "-I/repo/_build"]  # scratch worktree: generated headers of the main build
     cmd = ["g++", "-std=gnu++20", "-O0", "-g", "-w", "-fno-access-control", "-DNDEBUG"] + inc + [src, "-o", exe,
-           "-L%s/_build/lib" % repo, "-lsimgrid", "-Wl,-rpath,%s/_build/lib" % repo]
+           "-L%s" % libdir, "-lsimgrid", "-Wl,-rpath,%s" % libdir]
     p = subprocess.run(cmd, capture_output=True, text=True, timeout=timeout)
     if p.returncode != 0:
         return {"reproduced": False, "error": "driver does not compile: " + p.stderr[-1500:], "cmd": " ".join(cmd)}
